@@ -139,6 +139,21 @@ def static_clauses(ctx, st, pt, p):
             named_term = [m for r in p.static for t_ in r.targets if t_ in ('N-Term', 'C-Term') for m in r.mods
                           if m.named]
             n = len(p.seq)
+            lib_rule = {}
+
+            def lib_rule_mass(r):
+                # what the library itself adds for one copy of this rule's modifications on a terminus, in this mode and
+                # under these labels (vocabulary rows with metals differ from their compositions in average mode)
+                k_ = id(r)
+                if k_ not in lib_rule:
+                    lab = ''.join(f'<{x}>' for x in p.isotope)
+                    with ctx.eng.suspend():
+                        try:
+                            lib_rule[k_] = (pt.mass(lab + ''.join(m.written() for m in r.mods) + '-G', monoisotopic=mono)
+                                            - pt.mass(lab + 'G', monoisotopic=mono))
+                        except Exception:
+                            lib_rule[k_] = None
+                return lib_rule[k_]
             for fa, fb in zip(a[1], b[1]):
                 key = (fa.ion_type, fa.start, fa.end, fa.charge)
                 if key != (fb.ion_type, fb.start, fb.end, fb.charge):
@@ -157,6 +172,19 @@ def static_clauses(ctx, st, pt, p):
                     emu = L * trm - expl_has
                     slack = L * sum((1e-4 if mono else 1e-3 + 5e-6 * abs(m.avg or 0)) for m in named_term)
                     kf = 'K3' if trm != 0 and abs((fa.mass - fb.mass) - emu) <= 1e-5 + slack else None
+                    if kf is None and trm != 0:
+                        emu2, ok2 = 0.0, True
+                        for r in p.static:
+                            for t_ in r.targets:
+                                if t_ in ('N-Term', 'C-Term'):
+                                    lm = lib_rule_mass(r)
+                                    if lm is None:
+                                        ok2 = False
+                                        break
+                                    has = (t_ == 'N-Term' and fa.start == 0) or (t_ == 'C-Term' and fa.end == n)
+                                    emu2 += (L - (1 if has else 0)) * lm
+                        if ok2 and abs((fa.mass - fb.mass) - emu2) <= 1e-5 + 2e-6 * L:
+                            kf = 'K3'
                     ctx.violation('fragment-mass-of-rule-form-differs', {'rule_form': t_rule, 'explicit_form': t_expl,
                                                                          'ion': key, 'rule': fa.mass, 'explicit': fb.mass,
                                                                          'monoisotopic': mono}, kf=kf)
